@@ -1,11 +1,805 @@
-// c09: PromQL selectors and aggregations through the real parser and metrics query engine.
+// c09: PromQL selectors, aggregations (sum/min/max/avg/count, by/without) and vector arithmetic
+// through the real parser (ConvertPromQLToMetricsQuery) and the real metrics query engine
+// (ExecuteMetricsQuery / ExecuteMultipleMetricsQuery) on generated label sets, with open,
+// rotated and two-segment data.
+//
+//	oracle          PromQL semantics from the property text, evaluated on the returned series
+//	correspondence  the Coq model (coq/model/Promql.v) must predict the exact id strings and samples
 package main
 
 import (
+	"fmt"
+	"math/big"
 	"os"
+	"path/filepath"
+	"regexp"
+	"sort"
+	"strings"
+	"sync"
 
 	log "github.com/sirupsen/logrus"
+
+	"verifharness/vhlib"
 )
+
+// ---------- queries ----------
+type matcher struct {
+	K  string `json:"k"`
+	Op string `json:"op"` // = != =~ !~
+	V  string `json:"v"`
+}
+type qspec struct {
+	Kind string    `json:"kind"` // sel | agg | arith
+	Fn   string    `json:"fn,omitempty"`
+	Grp  string    `json:"grp,omitempty"` // "" | by | without
+	GL   []string  `json:"gl,omitempty"`
+	Name string    `json:"name,omitempty"`
+	Ms   []matcher `json:"ms,omitempty"`
+	Op   string    `json:"op,omitempty"`
+	L    *qspec    `json:"l,omitempty"`
+	R    *qspec    `json:"r,omitempty"`
+	Fam  int       `json:"fam"`             // family id (same selector and grouping, all five functions), -1 = none
+	Kn   string    `json:"known,omitempty"` // known-defect class this query was generated for ("" = main stream)
+}
+
+func (q qspec) selector() string {
+	if len(q.Ms) == 0 {
+		return q.Name
+	}
+	var ms []string
+	for _, m := range q.Ms {
+		ms = append(ms, fmt.Sprintf("%s%s%q", m.K, m.Op, m.V))
+	}
+	return q.Name + "{" + strings.Join(ms, ",") + "}"
+}
+func (q qspec) promql() string {
+	switch q.Kind {
+	case "sel":
+		return q.selector()
+	case "agg":
+		if q.Grp == "" {
+			return fmt.Sprintf("%s(%s)", q.Fn, q.selector())
+		}
+		return fmt.Sprintf("%s %s (%s) (%s)", q.Fn, q.Grp, strings.Join(q.GL, ","), q.selector())
+	default:
+		return q.L.promql() + " " + q.Op + " " + q.R.promql()
+	}
+}
+
+func coqStrList(l []string) string {
+	it := make([]string, len(l))
+	for i, s := range l {
+		it[i] = vhlib.CoqStr(s)
+	}
+	return vhlib.CoqList(it)
+}
+func coqMatchers(ms []matcher) string {
+	it := make([]string, len(ms))
+	for i, m := range ms {
+		op := map[string]string{"=": "MEq", "!=": "MNe", "=~": "MRe", "!~": "MNre"}[m.Op]
+		it[i] = fmt.Sprintf("mk_m %s %s %s", vhlib.CoqStr(m.K), op, vhlib.CoqStr(m.V))
+	}
+	return vhlib.CoqList(it)
+}
+func (q qspec) coqQuery() string {
+	if q.Kind == "sel" {
+		return fmt.Sprintf("(QSel %s %s)", vhlib.CoqStr(q.Name), coqMatchers(q.Ms))
+	}
+	fn := map[string]string{"sum": "ASum", "min": "AMin", "max": "AMax", "avg": "AAvg", "count": "ACount"}[q.Fn]
+	g := "GNone"
+	if q.Grp == "by" {
+		g = "(GBy " + coqStrList(q.GL) + ")"
+	} else if q.Grp == "without" {
+		g = "(GWithout " + coqStrList(q.GL) + ")"
+	}
+	return fmt.Sprintf("(QAgg %s %s %s %s)", fn, g, vhlib.CoqStr(q.Name), coqMatchers(q.Ms))
+}
+func (q qspec) coqCase() string {
+	if q.Kind == "arith" {
+		op := map[string]string{"+": "BAdd", "-": "BSub", "*": "BMul"}[q.Op]
+		return fmt.Sprintf("CA %s %s %s", op, q.L.coqQuery(), q.R.coqQuery())
+	}
+	return "CQ " + q.coqQuery()
+}
+
+// ---------- PromQL oracle ----------
+type answer map[string]map[uint32]float64 // canonical label set -> timestamp -> value
+
+func canonLabels(name string, ls map[string]string) string {
+	var ks []string
+	for k, v := range ls {
+		if v != "" {
+			ks = append(ks, k)
+		}
+	}
+	sort.Strings(ks)
+	var sb strings.Builder
+	sb.WriteString(name + "{")
+	for i, k := range ks {
+		if i > 0 {
+			sb.WriteByte(',')
+		}
+		fmt.Fprintf(&sb, "%s=%q", k, ls[k])
+	}
+	sb.WriteByte('}')
+	return sb.String()
+}
+
+func labelMap(s serie) map[string]string {
+	m := map[string]string{}
+	for _, t := range s.Tags {
+		m[t.K] = t.V
+	}
+	return m
+}
+
+func matches(m matcher, ls map[string]string) bool {
+	v := ls[m.K] // absent label = ""
+	switch m.Op {
+	case "=":
+		return v == m.V
+	case "!=":
+		return v != m.V
+	}
+	ok := regexp.MustCompile("^(?:" + m.V + ")$").MatchString(v)
+	if m.Op == "=~" {
+		return ok
+	}
+	return !ok
+}
+
+func pointsOf(d dataset, si, maxPhase int) map[uint32]float64 {
+	out := map[uint32]float64{}
+	for _, p := range d.DPs {
+		if p.S == si && p.Phase <= maxPhase {
+			out[p.T] = float64(p.V)
+		}
+	}
+	return out
+}
+
+func selected(q qspec, d dataset) []int {
+	var out []int
+	for i, s := range d.Series {
+		if s.Name != q.Name {
+			continue
+		}
+		ok := true
+		ls := labelMap(s)
+		for _, m := range q.Ms {
+			ok = ok && matches(m, ls)
+		}
+		if ok {
+			out = append(out, i)
+		}
+	}
+	return out
+}
+
+func fold(fn string, vs []float64) float64 {
+	r := vs[0]
+	switch fn {
+	case "count":
+		return float64(len(vs))
+	case "sum", "avg":
+		r = 0
+		for _, v := range vs {
+			r += v
+		}
+		if fn == "avg" {
+			r /= float64(len(vs))
+		}
+	case "min":
+		for _, v := range vs {
+			if v < r {
+				r = v
+			}
+		}
+	case "max":
+		for _, v := range vs {
+			if v > r {
+				r = v
+			}
+		}
+	}
+	return r
+}
+
+// withName: selectors keep the metric name; aggregations and arithmetic drop it
+func expect(q qspec, d dataset, maxPhase int) answer {
+	out := answer{}
+	switch q.Kind {
+	case "sel":
+		for _, i := range selected(q, d) {
+			ps := pointsOf(d, i, maxPhase)
+			if len(ps) > 0 {
+				out[canonLabels(q.Name, labelMap(d.Series[i]))] = ps
+			}
+		}
+	case "agg":
+		members := map[string][]int{}
+		for _, i := range selected(q, d) {
+			ls := labelMap(d.Series[i])
+			g := map[string]string{}
+			switch q.Grp {
+			case "by":
+				for _, k := range q.GL {
+					g[k] = ls[k]
+				}
+			case "without":
+				for k, v := range ls {
+					g[k] = v
+				}
+				for _, k := range q.GL {
+					delete(g, k)
+				}
+			}
+			key := canonLabels("", g)
+			members[key] = append(members[key], i)
+		}
+		for key, is := range members {
+			vals := map[uint32][]float64{}
+			for _, i := range is {
+				for t, v := range pointsOf(d, i, maxPhase) {
+					vals[t] = append(vals[t], v)
+				}
+			}
+			if len(vals) == 0 {
+				continue
+			}
+			out[key] = map[uint32]float64{}
+			for t, vs := range vals {
+				out[key][t] = fold(q.Fn, vs)
+			}
+		}
+	case "arith":
+		l, r := expect(*q.L, d, maxPhase), expect(*q.R, d, maxPhase)
+		strip := func(a answer) answer {
+			o := answer{}
+			for k, v := range a {
+				o[k[strings.Index(k, "{"):]] = v
+			}
+			return o
+		}
+		l, r = strip(l), strip(r)
+		for k, lp := range l {
+			rp, ok := r[k]
+			if !ok {
+				continue
+			}
+			m := map[uint32]float64{}
+			for t, lv := range lp {
+				if rv, ok := rp[t]; ok {
+					switch q.Op {
+					case "+":
+						m[t] = lv + rv
+					case "-":
+						m[t] = lv - rv
+					case "*":
+						m[t] = lv * rv
+					}
+				}
+			}
+			if len(m) > 0 {
+				out[k] = m
+			}
+		}
+	}
+	return out
+}
+
+// "cpu{host:v1,zone:v2," / "cpu{host:v1" -> name, labels
+func parseID(id string) (string, map[string]string, bool) {
+	i := strings.Index(id, "{")
+	if i < 0 {
+		return id, nil, false
+	}
+	name, rest := id[:i], strings.TrimSuffix(id[i+1:], ",")
+	ls := map[string]string{}
+	if rest != "" {
+		for _, kv := range strings.Split(rest, ",") {
+			j := strings.Index(kv, ":")
+			if j < 0 {
+				return name, ls, false
+			}
+			if _, dup := ls[kv[:j]]; dup {
+				return name, ls, false
+			}
+			ls[kv[:j]] = kv[j+1:]
+		}
+	}
+	return name, ls, true
+}
+
+// canonical form of an observed answer; problems (unparsable id, two ids with one label set) are returned
+func canonObs(q qspec, o qobs) (answer, []string) {
+	out := answer{}
+	var probs []string
+	for id, pts := range o.Res {
+		if len(pts) == 0 {
+			continue
+		}
+		name, ls, ok := parseID(id)
+		if !ok {
+			probs = append(probs, fmt.Sprintf("unparsable series id %q", id))
+			continue
+		}
+		if q.Kind == "sel" {
+			if name != q.Name {
+				probs = append(probs, fmt.Sprintf("series id %q has metric name %q", id, name))
+			}
+		} else {
+			name = ""
+		}
+		key := canonLabels(name, ls)
+		if _, dup := out[key]; dup {
+			probs = append(probs, fmt.Sprintf("label set %s reported twice", key))
+		}
+		m := map[uint32]float64{}
+		for t, v := range pts {
+			m[t] = v
+		}
+		out[key] = m
+	}
+	return out, probs
+}
+
+func sameKeys(a, b answer) bool {
+	if len(a) != len(b) {
+		return false
+	}
+	for k := range a {
+		if _, ok := b[k]; !ok {
+			return false
+		}
+	}
+	return true
+}
+func sameAnswer(a, b answer) bool {
+	if !sameKeys(a, b) {
+		return false
+	}
+	for k, am := range a {
+		bm := b[k]
+		if len(am) != len(bm) {
+			return false
+		}
+		for t, v := range am {
+			if w, ok := bm[t]; !ok || w != v {
+				return false
+			}
+		}
+	}
+	return true
+}
+
+func showAnswer(a answer, t0 uint32) string {
+	var ks []string
+	for k := range a {
+		ks = append(ks, k)
+	}
+	sort.Strings(ks)
+	var sb strings.Builder
+	for _, k := range ks {
+		var ts []int
+		for t := range a[k] {
+			ts = append(ts, int(t))
+		}
+		sort.Ints(ts)
+		sb.WriteString(k + ":")
+		for _, t := range ts {
+			fmt.Fprintf(&sb, " +%d=%g", t-int(t0), a[k][uint32(t)])
+		}
+		sb.WriteString("; ")
+	}
+	if sb.Len() == 0 {
+		return "(nothing)"
+	}
+	return sb.String()
+}
+
+// ---------- generator ----------
+var keyPool = []string{"a", "ab", "b", "ba", "c"}
+var valPool = []string{"x", "y", "1", "xa", "2"}
+var namePool = []string{"m", "cpu", "req", "n"}
+var rePool = []string{"x|y", "x.*", ".*", "1|2", "zz", "y|xa.*", "xa|1"}
+
+func subset(r *vhlib.Rng, pool []string, n int) []string {
+	idx := map[int]bool{}
+	for len(idx) < n {
+		idx[r.Intn(len(pool))] = true
+	}
+	var out []string
+	for i, s := range pool {
+		if idx[i] {
+			out = append(out, s)
+		}
+	}
+	return out
+}
+
+func genSeries(r *vhlib.Rng, name string, keys []string, n int, nvals int) []serie {
+	seen := map[string]bool{}
+	var out []serie
+	for tries := 0; len(out) < n && tries < 200; tries++ {
+		s := serie{Name: name}
+		for _, k := range keys {
+			s.Tags = append(s.Tags, tag{k, valPool[r.Intn(nvals)]})
+		}
+		key := canonLabels(name, labelMap(s))
+		if seen[key] {
+			continue
+		}
+		seen[key] = true
+		out = append(out, s)
+	}
+	return out
+}
+
+func genOffsets(r *vhlib.Rng, n int) []int {
+	seen := map[int]bool{}
+	var out []int
+	for len(out) < n {
+		o := r.Range(1, 295)
+		if !seen[o] {
+			seen[o] = true
+			out = append(out, o)
+		}
+	}
+	sort.Ints(out)
+	return out
+}
+
+// datapoints: every series takes a subset of a shared offset pool (so series meet at timestamps);
+// values are multiples of 60 (sums, and averages over up to 6 series, are exact integers)
+func genPoints(r *vhlib.Rng, d *dataset, sameTimes bool) {
+	offs := genOffsets(r, r.Range(4, 7))
+	offPhase := make([]int, len(offs))
+	for i := range offs {
+		offPhase[i] = r.Intn(2)
+	}
+	offPhase[0], offPhase[len(offs)-1] = 0, 1
+	for si := range d.Series {
+		mode := r.Intn(4) // 0: all before the rotation, 1: all after it, 2,3: split
+		for oi, o := range offs {
+			if !sameTimes && r.Chance(35) {
+				continue
+			}
+			ph := offPhase[oi]
+			if !sameTimes {
+				switch mode {
+				case 0:
+					ph = 0
+				case 1:
+					ph = 1
+				}
+			}
+			d.DPs = append(d.DPs, dpoint{S: si, T: d.T0 + uint32(o), V: int64(60 * r.Range(-3, 20)), Phase: ph})
+		}
+	}
+	// every series has at least one point
+	has := map[int]bool{}
+	for _, p := range d.DPs {
+		has[p.S] = true
+	}
+	for si := range d.Series {
+		if !has[si] {
+			d.DPs = append(d.DPs, dpoint{S: si, T: d.T0 + uint32(offs[0]), V: 60, Phase: 0})
+		}
+	}
+	// ingest order: shuffled (the store is fed in arbitrary order)
+	for i := len(d.DPs) - 1; i > 0; i-- {
+		j := r.Intn(i + 1)
+		d.DPs[i], d.DPs[j] = d.DPs[j], d.DPs[i]
+	}
+}
+
+func genMatcher(r *vhlib.Rng, key string) matcher {
+	switch r.Intn(4) {
+	case 0:
+		return matcher{key, "=", valPool[r.Intn(4)]}
+	case 1:
+		return matcher{key, "!=", valPool[r.Intn(4)]}
+	case 2:
+		return matcher{key, "=~", vhlib.Pick(r, rePool)}
+	default:
+		return matcher{key, "!~", vhlib.Pick(r, rePool)}
+	}
+}
+
+func genMatchers(r *vhlib.Rng, keys []string, n int) []matcher {
+	var ms []matcher
+	for _, k := range subset(r, keys, n) {
+		ms = append(ms, genMatcher(r, k))
+	}
+	// query order of matchers is arbitrary
+	if len(ms) == 2 && r.Bool() {
+		ms[0], ms[1] = ms[1], ms[0]
+	}
+	return ms
+}
+
+// group-key extraction searches the id string for "field:"; it is exact when no OTHER key in the id
+// ends with the field (names and values never contain ':' or ',' here)
+func substrOK(idKeys []string, gl []string) bool {
+	for _, f := range gl {
+		for _, k := range idKeys {
+			if k != f && strings.HasSuffix(k, f) {
+				return false
+			}
+		}
+	}
+	return true
+}
+
+var fns = []string{"sum", "min", "max", "avg", "count"}
+
+type metricInfo struct {
+	name string
+	keys []string
+}
+
+func genMain(r *vhlib.Rng, arith bool) (dataset, []qspec) {
+	d := dataset{T0: uint32(1700000000 + r.Intn(1000)*400)}
+	names := subset(r, namePool, 2)
+	var mi []metricInfo
+	if arith {
+		keys := subset(r, keyPool, r.Range(1, 3))
+		combos := genSeries(r, "", keys, r.Range(3, 6), 3)
+		for _, n := range names {
+			for _, c := range combos {
+				if r.Chance(75) {
+					d.Series = append(d.Series, serie{Name: n, Tags: c.Tags})
+				}
+			}
+			mi = append(mi, metricInfo{n, keys})
+		}
+		if len(d.Series) == 0 {
+			d.Series = append(d.Series, serie{Name: names[0], Tags: combos[0].Tags}, serie{Name: names[1], Tags: combos[0].Tags})
+		}
+	} else {
+		for _, n := range names {
+			keys := subset(r, keyPool, r.Range(2, 3))
+			d.Series = append(d.Series, genSeries(r, n, keys, r.Range(3, 6), r.Range(2, 3))...)
+			mi = append(mi, metricInfo{n, keys})
+		}
+	}
+	genPoints(r, &d, arith)
+
+	var qs []qspec
+	for _, m := range mi {
+		qs = append(qs, qspec{Kind: "sel", Name: m.name, Fam: -1})
+	}
+	for i := 0; i < 5; i++ {
+		m := vhlib.Pick(r, mi)
+		qs = append(qs, qspec{Kind: "sel", Name: m.name, Ms: genMatchers(r, m.keys, r.Range(1, min(2, len(m.keys)))), Fam: -1})
+	}
+	nfam := 3
+	if arith {
+		nfam = 1
+	}
+	for fam := 0; fam < nfam; fam++ {
+		m := vhlib.Pick(r, mi)
+		var ms []matcher
+		if r.Chance(40) {
+			ms = genMatchers(r, m.keys, 1)
+		}
+		var grp string
+		var gl []string
+		for tries := 0; tries < 20; tries++ {
+			grp, gl = "", nil
+			switch r.Intn(3) {
+			case 1:
+				grp = "by"
+				gl = subset(r, m.keys, r.Range(1, len(m.keys)))
+				if r.Bool() { // query order of the list is arbitrary
+					for i, j := 0, len(gl)-1; i < j; i, j = i+1, j-1 {
+						gl[i], gl[j] = gl[j], gl[i]
+					}
+				}
+			case 2:
+				if len(m.keys) > 1 {
+					grp = "without"
+					gl = subset(r, m.keys, r.Range(1, len(m.keys)-1))
+				}
+			}
+			idKeys := append([]string{}, gl...)
+			for _, x := range ms {
+				idKeys = append(idKeys, x.K)
+			}
+			if grp != "by" || substrOK(idKeys, gl) {
+				break
+			}
+			grp, gl = "", nil
+		}
+		for _, fn := range fns {
+			qs = append(qs, qspec{Kind: "agg", Fn: fn, Grp: grp, GL: gl, Name: m.name, Ms: ms, Fam: fam})
+		}
+	}
+	if arith {
+		for i := 0; i < 4; i++ {
+			l := qspec{Kind: "sel", Name: mi[0].name, Fam: -1}
+			rr := qspec{Kind: "sel", Name: mi[1].name, Fam: -1}
+			if r.Bool() {
+				rr.Name, l.Name = l.Name, rr.Name
+			}
+			if r.Chance(40) {
+				// both operands filter on the same key, so both id strings list the labels in the same order
+				k := vhlib.Pick(r, mi[0].keys)
+				l.Ms = []matcher{genMatcher(r, k)}
+				rr.Ms = []matcher{genMatcher(r, k)}
+			}
+			qs = append(qs, qspec{Kind: "arith", Op: vhlib.Pick(r, []string{"+", "-", "*"}), L: &l, R: &rr, Fam: -1})
+		}
+	}
+	return d, qs
+}
+
+// ---------- known-defect stream (separate generator, classes listed in known/C09.json) ----------
+func genKnown(r *vhlib.Rng, which int) (dataset, []qspec) {
+	d := dataset{T0: uint32(1700000000 + r.Intn(1000)*400)}
+	var qs []qspec
+	v := func() string { return valPool[r.Intn(2)] }
+	switch which {
+	case 0: // matchers / group-by on a label that some series of the metric do not carry
+		d.Series = []serie{
+			{"m", []tag{{"a", "1"}}},
+			{"m", []tag{{"a", "2"}, {"b", v()}}},
+			{"m", []tag{{"a", "xa"}, {"b", "2"}}},
+			{"m", []tag{{"a", "y"}, {"c", v()}}},
+			{"n", []tag{{"c", "x"}}},
+		}
+		for _, m := range []matcher{{"b", "!=", "2"}, {"b", "=", ""}, {"b", "=~", ".*"}, {"b", "!~", "x"}, {"zz", "!=", "x"}, {"Zz", "=~", ".*"}, {"c", "!=", "x"}} {
+			qs = append(qs, qspec{Kind: "sel", Name: "m", Ms: []matcher{m}, Fam: -1, Kn: "selector_absent_label"})
+		}
+		qs = append(qs, qspec{Kind: "sel", Name: "m", Ms: []matcher{{"a", "=~", "1|2"}, {"zz", "=~", "x"}}, Fam: -1, Kn: "selector_absent_label"})
+		qs = append(qs, qspec{Kind: "sel", Name: "m", Ms: []matcher{{"Zz", "!=", "x"}, {"a", "!=", "1"}}, Fam: -1, Kn: "selector_absent_label"})
+		qs = append(qs, qspec{Kind: "agg", Fn: "sum", Name: "m", Ms: []matcher{{"b", "!=", "2"}}, Fam: -1, Kn: "selector_absent_label"})
+		for _, fn := range []string{"sum", "count", "avg"} {
+			qs = append(qs, qspec{Kind: "agg", Fn: fn, Grp: "by", GL: []string{"b"}, Name: "m", Fam: -1, Kn: "agg_by_absent_label"})
+		}
+		qs = append(qs, qspec{Kind: "agg", Fn: "max", Grp: "by", GL: []string{"c", "b"}, Name: "m", Fam: -1, Kn: "agg_by_absent_label"})
+	case 1: // group key found by substring search: "b:" inside "ab:", "a:" inside "ba:"
+		keys := []string{"a", "ab", "b", "ba"}
+		d.Series = genSeries(r, "m", keys, 5, 2)
+		for _, fn := range []string{"sum", "min", "count"} {
+			qs = append(qs, qspec{Kind: "agg", Fn: fn, Grp: "by", GL: keys, Name: "m", Fam: -1, Kn: "agg_group_key_substring"})
+		}
+		qs = append(qs, qspec{Kind: "agg", Fn: "sum", Grp: "by", GL: []string{"b"}, Name: "m", Ms: []matcher{{"ab", "=~", ".*"}}, Fam: -1, Kn: "agg_group_key_substring"})
+		qs = append(qs, qspec{Kind: "agg", Fn: "max", Grp: "by", GL: []string{"a"}, Name: "m", Ms: []matcher{{"ba", "!=", "zz"}}, Fam: -1, Kn: "agg_group_key_substring"})
+		qs = append(qs, qspec{Kind: "agg", Fn: "avg", Grp: "by", GL: []string{"ab", "b"}, Name: "m", Fam: -1, Kn: "agg_group_key_substring"})
+		// without (every label): one group {} is expected, nothing is returned
+		for _, fn := range []string{"sum", "count"} {
+			qs = append(qs, qspec{Kind: "agg", Fn: fn, Grp: "without", GL: keys, Name: "m", Fam: -1, Kn: "agg_without_all_labels"})
+		}
+	case 2: // two matchers on one label: the second one is dropped by ReorderTagFilters
+		d.Series = genSeries(r, "m", []string{"a", "b"}, 5, 3)
+		qs = append(qs, qspec{Kind: "sel", Name: "m", Ms: []matcher{{"a", "!=", "x"}, {"a", "!=", "y"}}, Fam: -1, Kn: "selector_duplicate_label_matcher"})
+		qs = append(qs, qspec{Kind: "sel", Name: "m", Ms: []matcher{{"a", "=~", "x|y"}, {"a", "!=", "x"}}, Fam: -1, Kn: "selector_duplicate_label_matcher"})
+		qs = append(qs, qspec{Kind: "agg", Fn: "sum", Name: "m", Ms: []matcher{{"b", "=~", ".*"}, {"b", "=", "x"}}, Fam: -1, Kn: "selector_duplicate_label_matcher"})
+	case 3: // arithmetic: label order inside the id string, and a missing right-hand sample read as 0
+		keys := []string{"a", "b"}
+		combos := genSeries(r, "", keys, 4, 2)
+		for _, n := range []string{"m", "n"} {
+			for _, c := range combos {
+				d.Series = append(d.Series, serie{Name: n, Tags: c.Tags})
+			}
+		}
+		l := qspec{Kind: "sel", Name: "m", Ms: []matcher{{"b", "=~", ".*"}}, Fam: -1}
+		rr := qspec{Kind: "sel", Name: "n", Fam: -1}
+		qs = append(qs, qspec{Kind: "arith", Op: "+", L: &l, R: &rr, Fam: -1, Kn: "arith_label_order_mismatch"})
+		l2 := qspec{Kind: "sel", Name: "m", Fam: -1}
+		for _, op := range []string{"+", "*", "-"} {
+			qs = append(qs, qspec{Kind: "arith", Op: op, L: &l2, R: &rr, Fam: -1, Kn: "arith_missing_sample_as_zero"})
+		}
+	}
+	genPoints(r, &d, false)
+	return d, qs
+}
+
+// which failure kinds a known-defect query may legitimately show
+var knownKinds = map[string][]string{
+	"selector_absent_label":            {"selector_wrong_series", "agg_wrong_groups", "agg_wrong_value"},
+	"agg_by_absent_label":              {"agg_wrong_groups", "agg_wrong_value"},
+	"agg_group_key_substring":          {"agg_wrong_groups", "agg_wrong_value"},
+	"agg_without_all_labels":           {"agg_wrong_groups"},
+	"selector_duplicate_label_matcher": {"selector_wrong_series", "agg_wrong_value", "agg_wrong_groups"},
+	"arith_label_order_mismatch":       {"arith_wrong_series"},
+	"arith_missing_sample_as_zero":     {"arith_wrong_value"},
+}
+
+// ---------- Coq emission ----------
+func coqRat(v float64) string {
+	rat := new(big.Rat)
+	if rat.SetFloat64(v) == nil {
+		return "(Qmake 0 1)" // NaN/Inf never equals a model value: reported through the oracle
+	}
+	n := rat.Num().String()
+	if rat.Num().Sign() < 0 {
+		n = "(" + n + ")"
+	}
+	return fmt.Sprintf("(Qmake %s %s)", n, rat.Denom().String())
+}
+
+func coqDB(d dataset, split bool, maxPhase int) string {
+	var items []string
+	for si, s := range d.Series {
+		var chunks [][]string
+		cur := map[int][]string{}
+		for _, p := range d.DPs {
+			if p.S != si || p.Phase > maxPhase {
+				continue
+			}
+			ph := p.Phase
+			if !split {
+				ph = 0
+			}
+			cur[ph] = append(cur[ph], fmt.Sprintf("(%d,%s)", p.T-d.T0, vhlib.CoqZ(p.V)))
+		}
+		for ph := 0; ph <= 1; ph++ {
+			if len(cur[ph]) > 0 {
+				chunks = append(chunks, cur[ph])
+			}
+		}
+		if len(chunks) == 0 {
+			continue // the series does not exist yet at this stage
+		}
+		var ls, cs []string
+		for _, t := range s.Tags {
+			ls = append(ls, "("+vhlib.CoqStr(t.K)+","+vhlib.CoqStr(t.V)+")")
+		}
+		for _, c := range chunks {
+			cs = append(cs, vhlib.CoqList(c)+"%Z")
+		}
+		items = append(items, fmt.Sprintf("mk_series %s %s %s", vhlib.CoqStr(s.Name), vhlib.CoqList(ls), vhlib.CoqList(cs)))
+	}
+	return vhlib.CoqListNL(items)
+}
+
+func coqObs(o qobs, t0 uint32) string {
+	var ids []string
+	for id, pts := range o.Res {
+		if len(pts) > 0 {
+			ids = append(ids, id)
+		}
+	}
+	sort.Strings(ids)
+	var items []string
+	for _, id := range ids {
+		var ts []int
+		for t := range o.Res[id] {
+			ts = append(ts, int(t))
+		}
+		sort.Ints(ts)
+		var ps []string
+		for _, t := range ts {
+			ps = append(ps, fmt.Sprintf("(%d%%Z,%s)", t-int(t0), coqRat(o.Res[id][uint32(t)])))
+		}
+		items = append(items, "("+vhlib.CoqStr(id)+","+vhlib.CoqList(ps)+")")
+	}
+	return vhlib.CoqList(items)
+}
+
+// ---------- driver ----------
+type job struct {
+	idx   int
+	known bool
+	arith bool
+	d     dataset
+	qs    []qspec
+	split []stageObs // run with the rotation between phase 0 and phase 1
+	whole []stageObs // run with everything ingested before the (single) rotation
+	err   string
+}
+
+func stageOf(obs []stageObs, name string) *stageObs {
+	for i := range obs {
+		if obs[i].Stage == name {
+			return &obs[i]
+		}
+	}
+	return nil
+}
 
 func main() {
 	log.SetLevel(log.PanicLevel)
@@ -17,4 +811,231 @@ func main() {
 		probeMain(os.Args[2:])
 		return
 	}
+	cfg := vhlib.ParseFlags()
+	sum := vhlib.NewSummary("distinct = (dataset, query, stage) with a non-empty expected answer")
+	r := vhlib.NewRng(cfg.Seed)
+	mainRng, knownRng := r.Fork(), r.Fork()
+
+	nMain, nKnownRounds := 28, 1
+	if cfg.Thorough() {
+		nMain, nKnownRounds = 700, 12
+	}
+	var jobs []*job
+	for i := 0; i < nMain; i++ {
+		arith := i%4 == 3
+		d, qs := genMain(mainRng.Fork(), arith)
+		jobs = append(jobs, &job{idx: len(jobs), arith: arith, d: d, qs: qs})
+	}
+	for k := 0; k < nKnownRounds; k++ {
+		for w := 0; w < 4; w++ {
+			d, qs := genKnown(knownRng.Fork(), w)
+			jobs = append(jobs, &job{idx: len(jobs), known: true, d: d, qs: qs})
+		}
+	}
+
+	// run the real implementation (one worker process per store), a few at a time
+	root := filepath.Join(cfg.Out, "runs")
+	var wg sync.WaitGroup
+	sem := make(chan struct{}, 6)
+	for _, j := range jobs {
+		for _, q := range j.qs {
+			j.d.Queries = append(j.d.Queries, q.promql())
+		}
+		wg.Add(1)
+		go func(j *job) {
+			defer wg.Done()
+			sem <- struct{}{}
+			defer func() { <-sem }()
+			var err error
+			if j.split, err = runWorker(filepath.Join(root, fmt.Sprintf("d%d_split", j.idx)), j.d); err != nil {
+				j.err = "split run: " + err.Error()
+				return
+			}
+			w := j.d
+			w.DPs = append([]dpoint{}, j.d.DPs...)
+			for i := range w.DPs {
+				w.DPs[i].Phase = 0
+			}
+			if j.whole, err = runWorker(filepath.Join(root, fmt.Sprintf("d%d_whole", j.idx)), w); err != nil {
+				j.err = "unsplit run: " + err.Error()
+			}
+		}(j)
+	}
+	wg.Wait()
+
+	var defs strings.Builder
+	var exprs []string
+	ncases, fileNo := 0, 0
+	flushFile := func() {
+		if len(exprs) == 0 {
+			return
+		}
+		sum.WriteCaseFile(filepath.Join(cfg.Out, "cases"), fmt.Sprintf("c09_%03d", fileNo),
+			"From SigM Require Import Base Promql PromqlCheck.\nFrom Coq Require Import QArith.\n",
+			defs.String(), strings.Join(exprs, "\n  ++ "), ncases)
+		defs.Reset()
+		exprs = nil
+		ncases = 0
+		fileNo++
+	}
+	_ = os.MkdirAll(filepath.Join(cfg.Out, "cases"), 0o755)
+
+	for _, j := range jobs {
+		stream := "main"
+		if j.known {
+			stream = "known"
+		} else if j.arith {
+			stream = "main_arith"
+		}
+		caseOf := func(qi int, stage string) map[string]interface{} {
+			return map[string]interface{}{"dataset": j.d, "query": j.qs[qi].promql(), "stage": stage,
+				"replay": "save the dataset object as d.json (its queries field lists all queries of the run) and run: work/bin/c09 probe d.json"}
+		}
+		if j.err != "" {
+			sum.Fail("metrics_worker_crash", j.err, map[string]interface{}{"dataset": j.d})
+			continue
+		}
+		for _, so := range append(append([]stageObs{}, j.split...), j.whole...) {
+			if so.Stage == "harness" {
+				sum.HarnessError(strings.Join(so.Errs, "; "))
+			}
+			if so.Stage == "ingest" {
+				sum.Fail("metrics_ingest_rejected", strings.Join(so.Errs, "; "), map[string]interface{}{"dataset": j.d})
+			}
+		}
+		type stageRef struct {
+			name     string
+			obs      *stageObs
+			maxPhase int
+			split    bool
+		}
+		stages := []stageRef{
+			{"open", stageOf(j.split, "open"), 0, true}, {"rotated", stageOf(j.split, "rotated"), 0, true},
+			{"mixed", stageOf(j.split, "mixed"), 1, true}, {"rotated2", stageOf(j.split, "rotated2"), 1, true},
+			{"whole_open", stageOf(j.whole, "open"), 1, false}, {"whole_rotated", stageOf(j.whole, "rotated"), 1, false},
+		}
+		canon := map[string][]answer{}
+		for _, st := range stages {
+			if st.obs == nil || len(st.obs.Q) != len(j.qs) {
+				sum.HarnessError(fmt.Sprintf("dataset %d: stage %s missing", j.idx, st.name))
+				continue
+			}
+			canon[st.name] = make([]answer, len(j.qs))
+			for qi, q := range j.qs {
+				o := st.obs.Q[qi]
+				want := expect(q, j.d, st.maxPhase)
+				got, probs := canonObs(q, o)
+				canon[st.name][qi] = got
+				sum.Eval(fmt.Sprintf("%d/%d/%s", j.idx, qi, st.name), len(want) > 0)
+				sum.Count("stream/" + stream)
+				sum.Count("stage/" + st.name)
+				kind := q.Kind
+				if q.Kind == "agg" {
+					kind = "agg/" + q.Fn + "/" + map[string]string{"": "none", "by": "by", "without": "without"}[q.Grp]
+				}
+				sum.Count("query/" + kind)
+				fail := func(cls, detail string) {
+					if q.Kn != "" {
+						for _, k := range knownKinds[q.Kn] {
+							if k == cls {
+								cls = q.Kn
+							}
+						}
+					}
+					sum.Fail(cls, fmt.Sprintf("%s at stage %s: %s", q.promql(), st.name, detail), caseOf(qi, st.name))
+				}
+				pre := map[string]string{"sel": "selector", "agg": "agg", "arith": "arith"}[q.Kind]
+				if len(o.Errs) > 0 {
+					fail(pre+"_query_error", strings.Join(o.Errs, "; "))
+					continue
+				}
+				if len(probs) > 0 {
+					fail(map[string]string{"sel": "selector_wrong_series", "agg": "agg_wrong_groups", "arith": "arith_wrong_series"}[q.Kind], strings.Join(probs, "; "))
+					continue
+				}
+				if !sameKeys(want, got) {
+					fail(map[string]string{"sel": "selector_wrong_series", "agg": "agg_wrong_groups", "arith": "arith_wrong_series"}[q.Kind],
+						fmt.Sprintf("PromQL answer %s, returned %s", showAnswer(want, j.d.T0), showAnswer(got, j.d.T0)))
+				} else if !sameAnswer(want, got) {
+					fail(map[string]string{"sel": "selector_wrong_samples", "agg": "agg_wrong_value", "arith": "arith_wrong_value"}[q.Kind],
+						fmt.Sprintf("PromQL answer %s, returned %s", showAnswer(want, j.d.T0), showAnswer(got, j.d.T0)))
+				}
+			}
+			// relations between the five aggregations of one family, on the implementation's own answers
+			fams := map[int]map[string]answer{}
+			for qi, q := range j.qs {
+				if q.Fam >= 0 && q.Kn == "" {
+					if fams[q.Fam] == nil {
+						fams[q.Fam] = map[string]answer{}
+					}
+					fams[q.Fam][q.Fn] = canon[st.name][qi]
+				}
+			}
+			for fam, a := range fams {
+				for g, avg := range a["avg"] {
+					for t, av := range avg {
+						s, okS := a["sum"][g][t]
+						c, okC := a["count"][g][t]
+						mn, okMn := a["min"][g][t]
+						mx, okMx := a["max"][g][t]
+						if okS && okC && (c == 0 || av != s/c) {
+							sum.Fail("avg_ne_sum_div_count", fmt.Sprintf("family %d group %s t=+%d: avg %g, sum %g, count %g (stage %s)", fam, g, t-j.d.T0, av, s, c, st.name), caseOf(0, st.name))
+						}
+						if okMn && okMx && !(mn <= av && av <= mx) {
+							sum.Fail("min_avg_max_order", fmt.Sprintf("family %d group %s t=+%d: min %g, avg %g, max %g (stage %s)", fam, g, t-j.d.T0, mn, av, mx, st.name), caseOf(0, st.name))
+						}
+					}
+				}
+			}
+		}
+		// same data, different physical layout: the answers must be identical
+		pairs := [][3]string{{"open", "rotated", "open_vs_rotated_differ"}, {"mixed", "rotated2", "open_vs_rotated_differ"},
+			{"whole_open", "whole_rotated", "open_vs_rotated_differ"}, {"rotated2", "whole_rotated", "split_changes_answer"}, {"mixed", "whole_open", "split_changes_answer"}}
+		for _, p := range pairs {
+			a, b := canon[p[0]], canon[p[1]]
+			if a == nil || b == nil {
+				continue
+			}
+			for qi, q := range j.qs {
+				if !sameAnswer(a[qi], b[qi]) {
+					sum.Fail(p[2], fmt.Sprintf("%s: stage %s returns %s, stage %s returns %s", q.promql(), p[0], showAnswer(a[qi], j.d.T0), p[1], showAnswer(b[qi], j.d.T0)), caseOf(qi, p[0]+"/"+p[1]))
+				}
+			}
+		}
+		if j.idx < 3 || (j.known && len(sum.Samples) < 4) {
+			sum.Sample(map[string]interface{}{"stream": stream, "series": len(j.d.Series), "datapoints": len(j.d.DPs), "queries": j.d.Queries})
+		}
+
+		// model cases: the model is run on the store contents of every stage
+		fmt.Fprintf(&defs, "Definition db%d_a : list series := %s.\n", j.idx, coqDB(j.d, true, 0))
+		fmt.Fprintf(&defs, "Definition db%d_b : list series := %s.\n", j.idx, coqDB(j.d, true, 1))
+		fmt.Fprintf(&defs, "Definition db%d_c : list series := %s.\n", j.idx, coqDB(j.d, false, 1))
+		for qi, q := range j.qs {
+			fmt.Fprintf(&defs, "Definition q%d_%d : qcase := %s.\n", j.idx, qi, q.coqCase())
+		}
+		for si, st := range stages {
+			if st.obs == nil || len(st.obs.Q) != len(j.qs) {
+				continue
+			}
+			var items []string
+			for qi := range j.qs {
+				items = append(items, fmt.Sprintf("(q%d_%d, %s)", j.idx, qi, coqObs(st.obs.Q[qi], j.d.T0)))
+			}
+			fmt.Fprintf(&defs, "Definition cs%d_%d : list (qcase * obs) := %s.\n", j.idx, si, vhlib.CoqListNL(items))
+			db := map[int]string{0: "a", 1: "a", 2: "b", 3: "b", 4: "c", 5: "c"}[si]
+			exprs = append(exprs, fmt.Sprintf("check_cases db%d_%s cs%d_%d %d", j.idx, db, j.idx, si, j.idx*10000+si*1000))
+			ncases += len(j.qs)
+		}
+		if ncases >= 450 {
+			flushFile()
+		}
+	}
+	flushFile()
+	sum.Notes = append(sum.Notes,
+		"values are multiples of 60 and at most 6 series share a metric, so sums and averages are exact integers in binary64; results are compared exactly",
+		"all datapoints lie within a 300 s window (down-sampling step 1 s, one point per series and second)",
+		"model comparison: exact series-id byte strings (label order included) and exact sample values, for every stage (open, rotated, open+rotated, two rotated segments, unsplit)",
+		"case index = dataset*10000 + stage*1000 + query")
+	sum.Write(cfg.Out)
+	_ = os.RemoveAll(root)
 }
